@@ -69,6 +69,14 @@ View30(a) ==
                    !.subs = View30Subs(a.subs)]
   ELSE [a EXCEPT !.subs = View30Subs(a.subs)]
 
+(* the ceiling reading of date_histogram nodes (see Aggs.tla HistKey) *)
+RECURSIVE ViewCeil(_)
+ViewCeilSubs(subs) == [i \in DOMAIN subs |-> [name |-> subs[i].name, a |-> ViewCeil(subs[i].a)]]
+ViewCeil(a) ==
+  IF IsLeaf(a) THEN a
+  ELSE IF a.t = "hist" /\ a.rnd = "either" THEN [a EXCEPT !.rnd = "ceil", !.subs = ViewCeilSubs(a.subs)]
+  ELSE [a EXCEPT !.subs = ViewCeilSubs(a.subs)]
+
 (* can the per-segment forms differ from the reference at all *)
 RECURSIVE Prone12a(_)
 Prone12a(a) ==
@@ -87,7 +95,9 @@ Prone12b(a) ==
 Cands(Mi, Mb, aggs) ==
   LET a30 == View30Subs(aggs)
       ms == IF Mb = Mi THEN << [M |-> Mi, d |-> {}] >> ELSE << [M |-> Mi, d |-> {}], [M |-> Mb, d |-> {"S07a"}] >>
-      ts == IF a30 = aggs THEN << [a |-> aggs, d |-> {}] >> ELSE << [a |-> aggs, d |-> {}], [a |-> a30, d |-> {"S30a"}] >>
+      t0 == IF a30 = aggs THEN << [a |-> aggs, d |-> {}] >> ELSE << [a |-> aggs, d |-> {}], [a |-> a30, d |-> {"S30a"}] >>
+      ts == IF ViewCeilSubs(aggs) = aggs THEN t0
+            ELSE [i \in DOMAIN t0 |-> [a |-> ViewCeilSubs(t0[i].a), d |-> t0[i].d]] \o t0     \* what the code does first
       pa == \E i \in DOMAIN aggs : Prone12a(aggs[i].a)
       pb == \E i \in DOMAIN aggs : Prone12b(aggs[i].a)
       modes == << [form |-> "exact", d |-> {}] >>
